@@ -353,6 +353,11 @@ func (w *h5World) inbound(kind string, peer *net.UDPAddr, payload []byte, viaSoc
 	synctest.Wait()
 	select {
 	case <-doneIn:
+		// the caller's buffer is reused for the next datagram as soon as the handler has returned (Client.Listen reads
+		// every datagram into one buffer): whatever the client keeps of this message it must have copied
+		for i := range data {
+			data[i] = 0xEE
+		}
 	default:
 		// the read loop's handler is blocked on this message: report it and release it by draining the queue
 		w.vt.Obs("blocked")
